@@ -60,6 +60,58 @@ var c04Parts = map[string]c04PartFn{
 	"secp256k1": c04MkPart[secp256k1fr.Element](secp256k1.VerifPartitionScalars),
 }
 
+// _innerMsmG1 / _innerMsmG2 of every group with the caller's window (api "inner" of the MSMX lines, c04x.go)
+var c04InnerFns = map[string]func(points, scalars any, c uint64, nbTasks int) any{
+	"bn254/g1": func(p, s any, c uint64, t int) any {
+		return bn254.VerifInnerMsmG1(c, p.([]bn254.G1Affine), s.([]bn254fr.Element), t)
+	},
+	"bn254/g2": func(p, s any, c uint64, t int) any {
+		return bn254.VerifInnerMsmG2(c, p.([]bn254.G2Affine), s.([]bn254fr.Element), t)
+	},
+	"bls12-377/g1": func(p, s any, c uint64, t int) any {
+		return bls12377.VerifInnerMsmG1(c, p.([]bls12377.G1Affine), s.([]bls12377fr.Element), t)
+	},
+	"bls12-377/g2": func(p, s any, c uint64, t int) any {
+		return bls12377.VerifInnerMsmG2(c, p.([]bls12377.G2Affine), s.([]bls12377fr.Element), t)
+	},
+	"bls12-381/g1": func(p, s any, c uint64, t int) any {
+		return bls12381.VerifInnerMsmG1(c, p.([]bls12381.G1Affine), s.([]bls12381fr.Element), t)
+	},
+	"bls12-381/g2": func(p, s any, c uint64, t int) any {
+		return bls12381.VerifInnerMsmG2(c, p.([]bls12381.G2Affine), s.([]bls12381fr.Element), t)
+	},
+	"bls24-315/g1": func(p, s any, c uint64, t int) any {
+		return bls24315.VerifInnerMsmG1(c, p.([]bls24315.G1Affine), s.([]bls24315fr.Element), t)
+	},
+	"bls24-315/g2": func(p, s any, c uint64, t int) any {
+		return bls24315.VerifInnerMsmG2(c, p.([]bls24315.G2Affine), s.([]bls24315fr.Element), t)
+	},
+	"bls24-317/g1": func(p, s any, c uint64, t int) any {
+		return bls24317.VerifInnerMsmG1(c, p.([]bls24317.G1Affine), s.([]bls24317fr.Element), t)
+	},
+	"bls24-317/g2": func(p, s any, c uint64, t int) any {
+		return bls24317.VerifInnerMsmG2(c, p.([]bls24317.G2Affine), s.([]bls24317fr.Element), t)
+	},
+	"bw6-633/g1": func(p, s any, c uint64, t int) any {
+		return bw6633.VerifInnerMsmG1(c, p.([]bw6633.G1Affine), s.([]bw6633fr.Element), t)
+	},
+	"bw6-633/g2": func(p, s any, c uint64, t int) any {
+		return bw6633.VerifInnerMsmG2(c, p.([]bw6633.G2Affine), s.([]bw6633fr.Element), t)
+	},
+	"bw6-761/g1": func(p, s any, c uint64, t int) any {
+		return bw6761.VerifInnerMsmG1(c, p.([]bw6761.G1Affine), s.([]bw6761fr.Element), t)
+	},
+	"bw6-761/g2": func(p, s any, c uint64, t int) any {
+		return bw6761.VerifInnerMsmG2(c, p.([]bw6761.G2Affine), s.([]bw6761fr.Element), t)
+	},
+	"grumpkin/g1": func(p, s any, c uint64, t int) any {
+		return grumpkin.VerifInnerMsmG1(c, p.([]grumpkin.G1Affine), s.([]grumpkinfr.Element), t)
+	},
+	"secp256k1/g1": func(p, s any, c uint64, t int) any {
+		return secp256k1.VerifInnerMsmG1(c, p.([]secp256k1.G1Affine), s.([]secp256k1fr.Element), t)
+	},
+}
+
 func c04Digits(d []uint16) string {
 	if len(d) == 0 {
 		return "-"
